@@ -107,6 +107,8 @@ class Ctx:
         self.FC = FileComparison
         self.query_log = []   # (query, path, answer) for the view slice
         self.contract = []    # C10 predicates that failed right after a build_file call
+        self.call_stack = []     # DSL calls in progress: ['bf', rel] / ['sb', name, args_wire, kwargs_wire]
+        self.fault_call = None   # the call stack at the moment an injected fault fired
         self.started_targets = {}  # targets whose function was entered (so a file there is ours to remove)
 
     def P(self, rel):
@@ -173,8 +175,21 @@ def eval_cond(cond, acc):
     raise ValueError(k)
 
 
-class _Return(Exception):
-    pass
+def _jsonable(v):
+    import json
+    try:
+        json.dumps(v)
+        return True
+    except (TypeError, ValueError):
+        return False
+
+
+def fault_cls(ctx, e, depth):
+    """class name of a caught exception; an OSError caused by an injected fault is just 'OSError'
+    (which subclass wraps it is not specified)"""
+    if isinstance(e, OSError) and ctx.fault_call is not None and len(ctx.fault_call) >= depth:
+        return 'OSError'
+    return exc_cls(e)
 
 
 def run_func(ctx, idx, b, target, arg, kw, is_root=False):
@@ -241,44 +256,55 @@ def exec_stmts(ctx, stmts, b, target, acc):
             _, rel, cmp_, callee, arg, kw, catch = st
             name = ctx.funcs[callee]['name']
 
-            def body(bb, fn, a, _j=callee, **kws):
-                ctx.started_targets[fn] = True
+            mine = {'started': False}
+
+            def body(bb, fn, a, _j=callee, _mine=mine, **kws):
+                _mine['started'] = True
                 if os.path.lexists(fn):
                     ctx.contract.append(['target-present-at-start', ctx.rel(fn)])
                 if fn != os.path.abspath(fn):
                     ctx.contract.append(['path-not-normalised', fn])
                 return run_func(ctx, _j, bb, fn, a, kws)
             tgt = ctx.P(rel)
+            ctx.call_stack.append(['bf', rel])
+            depth = len(ctx.call_stack)
             try:
-                r = b.build_file_with_comparison(
-                    tgt, ctx.cmp(cmp_), name, body, dec_pyval(arg), **dec_pyval(kw))
+                try:
+                    r = b.build_file_with_comparison(
+                        tgt, ctx.cmp(cmp_), name, body, dec_pyval(arg), **dec_pyval(kw))
+                finally:
+                    del ctx.call_stack[depth - 1:]
                 # C10: on return the target is a regular file and all parents are directories
                 if not os.path.isfile(tgt) or not os.path.isdir(os.path.dirname(tgt)):
                     ctx.contract.append(['returned-without-file', rel])
-                ctx.started_targets.pop(tgt, None)
                 acc.append(['v', r])
             except Exception as e:
                 # C10: after a failure of the function the target does not exist
                 st_ = getattr(e, '_fbh_phase', None)
-                if os.path.lexists(tgt) and not os.path.isdir(tgt) and ctx.started_targets.get(tgt):
+                if os.path.lexists(tgt) and not os.path.isdir(tgt) and mine['started']:
                     ctx.contract.append(['target-left-behind', rel, exc_cls(e)])
-                ctx.started_targets.pop(tgt, None)
                 if not catch:
                     raise
-                acc.append(['e', exc_cls(e)])
+                acc.append(['e', fault_cls(ctx, e, depth)])
         elif k == 'sb':
             _, callee, arg, kw, catch = st
             name = ctx.funcs[callee]['name']
 
             def body(bb, a, _j=callee, **kws):
                 return run_func(ctx, _j, bb, None, a, kws)
+            ctx.call_stack.append(['sb', name, wire.enc([dec_pyval(arg)]) if _jsonable(dec_pyval(arg)) else None,
+                                   wire.enc(dec_pyval(kw))])
+            depth = len(ctx.call_stack)
             try:
-                r = b.subbuild(name, body, dec_pyval(arg), **dec_pyval(kw))
+                try:
+                    r = b.subbuild(name, body, dec_pyval(arg), **dec_pyval(kw))
+                finally:
+                    del ctx.call_stack[depth - 1:]
                 acc.append(['v', r])
             except Exception as e:
                 if not catch:
                     raise
-                acc.append(['e', exc_cls(e)])
+                acc.append(['e', fault_cls(ctx, e, depth)])
         elif k == 'raise':
             e = UserExc(st[1])
             ctx.raised.setdefault(st[1], []).append(e)
